@@ -249,10 +249,26 @@ template <class L> class LabeledFamily : public IAlgoFamily {
                 }
                 DG cd(v);
                 UG cu(std::list<E>(v.begin(), v.end()));
+                size_t nn = 0;
+                for (auto &t : seq)
+                    nn = std::max<size_t>(nn, 1 + std::max(t[0].get<size_t>(), t[1].get<size_t>()));
+                DG od(nn);
+                UG ou(nn);
+                for (auto &e : v) {
+                    if constexpr (nolabel) {
+                        od.addEdge(e.first, e.second);
+                        ou.addEdge(e.first, e.second);
+                    } else {
+                        od.addEdge(std::get<0>(e), std::get<1>(e), std::get<2>(e));
+                        ou.addEdge(std::get<0>(e), std::get<1>(e), std::get<2>(e));
+                    }
+                }
                 r.records.push_back({{"k", "conv_edgelist"}, {"kind", nolabel ? "nolabel" : "labeled"}, {"family", fam},
-                                     {"dir", true}, {"seq", seq}, {"out", encOf(cd)}});
+                                     {"dir", true}, {"seq", seq}, {"out", encOf(cd)}, {"one", encOf(od)},
+                                     {"equal_one", (cd == od) && !(cd != od)}});
                 r.records.push_back({{"k", "conv_edgelist"}, {"kind", nolabel ? "nolabel" : "labeled"}, {"family", fam},
-                                     {"dir", false}, {"seq", seq}, {"out", encOf(cu)}});
+                                     {"dir", false}, {"seq", seq}, {"out", encOf(cu)}, {"one", encOf(ou)},
+                                     {"equal_one", (cu == ou) && !(cu != ou)}});
             }
         } catch (const std::exception &e) {
             r.fail(std::string("a construction threw on a valid large graph: ") + e.what());
